@@ -508,7 +508,8 @@ fn check_model(m: &Model, lay: &Layout, obs: &mut Obs) -> Verdict {
     // ... however the iterator is driven (nth / skip / step_by / count / last / size_hint)
     if let Err(e) = super::common::iter_conformance(
         "iter_modules()",
-        || bundle.iter_modules().map(|r| r.map(|m| (m.id(), m.data().to_vec())).map_err(|e| e.to_string())),
+        || bundle.iter_modules(),
+        |r| r.map(|m| (m.id(), m.data().to_vec())).map_err(|e| e.to_string()),
         &want,
     ) {
         return Verdict::Fail(e);
